@@ -153,12 +153,8 @@ Proof.
         { intros ->. rewrite N.eqb_refl in Hlt. pose proof (budget_nonneg ip (LProg PIdle rest [])) as H0. cbn in H0. lia. }
         split; [split; [congruence|exact Hf']|]. split; [split; [exact Hnb|destruct p1; auto; contradiction]|].
         rewrite Ht'. destruct p1; try contradiction; cbn [pending_on]; lia.
-      * rewrite andb_false_r in *. pair_inv Es. cbn [bans fails set_fails pending_on].
-        split; [split; [exact Hb|]|split; [auto|]].
-        -- destruct (N.eqb_spec ip ip0) as [->|Hne]; [rewrite upd_same; unfold frec_ok; cbn; unfold lenZ; cbn; lia|].
-           rewrite upd_other by exact Hne. exact Hf.
-        -- destruct (N.eqb_spec ip ip0) as [->|Hne]; [rewrite upd_same; cbn; destruct Hf; lia|].
-           rewrite upd_other by exact Hne. lia.
+      * rewrite andb_false_r in *. pair_inv Es. cbn [anon_resets current_variant bans fails pending_on].
+        split; [split; [exact Hb|exact Hf]|split; [auto|lia]].
 Qed.
 
 Definition bsum (ip : N) (ls : list lo) : Z := fold_right Z.add 0 (map (budget ip) ls).
